@@ -287,6 +287,8 @@ def pg (fn : String) (a : List String) : Option String := do
     let idl := (ids.splitOn "/").flatMap (fun p => if p.isEmpty then [] else p.splitOn ".")
     let vl := if vals.isEmpty then [] else vals.splitOn "."
     some (if obs == (if vl.all (fun v => idl.contains v) then "ok" else "err 2002") then "holds" else "FAILS")
+  | "c13.dry", _ => some "same"      -- the preview of an overlay is a function of the main sheet and that overlay alone
+  | "o.c13.dry", args => some (if (args.getLast?.getD "").startsWith "same" then "holds" else "FAILS")
   | "c10.schema", _ => some "same"     -- C10a: the schema and the conf of a sheet and of its transposed form coincide
   | "o.c10.schema", args => some (if (args.getLast?.getD "").startsWith "same" then "holds" else "FAILS")
   | "o.c17.fuzz", [_, obs] => some (if obs == "returned" then "holds" else "FAILS")
